@@ -750,6 +750,12 @@ def c18(tier, hook=None):
                 for entry in ("attr", "derive"):
                     cases.append((named, 0, True, entry, where, bounds))
                     mods.append((len(cases) - 1, rf.deref_module(len(cases) - 1, named, 0, True, entry, where, bounds)))
+    # field names of other lexical kinds: raw keywords (`r#type` must stay raw in `self.r#type`), a name the generator uses itself
+    for fnm in ("r#type", "r#fn", "r#match", "r#box", "r#self_", "__self", "target", "deref") if not hook else ():
+        for generic in (False, True):
+            for entry in ("attr", "derive"):
+                cases.append((fnm, 1 if not generic else 0, generic, entry, generic))
+                mods.append((len(cases) - 1, rf.deref_module(len(cases) - 1, fnm, 1 if not generic else 0, generic, entry, generic)))
     # the struct produced by a macro_rules! macro, the field type handed in as an `ident` / `tt` fragment (real spans and hygiene)
     for frag in ("ident", "tt"):
         for entry in ("attr", "derive"):
